@@ -342,6 +342,15 @@ class ExecutionState:
                     )
                     self._replay_status = ReplayStatus.NEW
 
+    def begin_replay_tracking(self) -> None:
+        """Evaluate the replay boundary once, before any operation of this invocation runs.
+
+        track_replay() is only called when an operation is left. Without this, a history that holds
+        no completed operation at all would keep the logger muted while the first operation - a
+        newly executed step attempt, say - is running.
+        """
+        self.track_replay(operation_id="")
+
     def _recorded_descendants(self, operation_id: str) -> set[str]:
         """Ids of all operations recorded (directly or transitively) beneath the given operation."""
         children: dict[str, list[str]] = {}
